@@ -399,6 +399,31 @@ def _int_ndarrays(part, db):
                                 part.violation(sig + ":values differ from the Scalar results", {"got": vals, "scalars": [w.value for w in ref], "quantity": repr(r.GetQuantity())})
 
 
+def _long_operands(part, db):
+    """Operands of 255, 256 and 300 values (list, tuple, ndarray, mixed): element by element what the Scalars give;
+    python ints that do not fit 64 bits stay exact (multiples of 2**31, so that the Scalar reference is exact)."""
+    for n in (255, 256, 300):
+        for ka, kb in (("list", "list"), ("tuple", "tuple"), ("list", "tuple"), ("ndarray", "list")):
+            for va, vb, ua, ub in (([3 * 2**31 + 0] * n, [5 * 2**31] * n, "m", "m"), ([1.5 + i for i in range(n)], [0.25 * (i + 1) for i in range(n)], "m", "cm")):
+                if ka == "ndarray" and isinstance(va[0], int):
+                    continue
+                for op in OPS:
+                    part.count("evaluations")
+                    part.count("long_operand_operations")
+                    a = Array(_mk(ka, va) if ka == "ndarray" else (list(va) if ka == "list" else tuple(va)), ua, "length")
+                    b = Array(list(vb) if kb == "list" else tuple(vb), ub, "length")
+                    sig = "C10:long operands (%d values, %s %s %s, %s):%s %s %s" % (n, ka, op, kb, type(va[0]).__name__, ua, op, ub)
+                    try:
+                        r = _apply(op, a, b)
+                        ref = [_apply(op, Scalar(float(x), ua, "length"), Scalar(float(y), ub, "length")) for x, y in ((va[0], vb[0]), (va[-1], vb[-1]), (va[n // 2], vb[n // 2]))]
+                    except Exception as e:
+                        part.violation(sig + ":raised", {"error": repr(e)})
+                        continue
+                    got = [float(r.values[0]), float(r.values[-1]), float(r.values[n // 2])]
+                    if len(r.values) != n or not all(_elem_ok(op, g, w.value) for g, w in zip(got, ref)) or r.GetQuantity() != ref[0].GetQuantity():
+                        part.violation(sig + ":values differ from the Scalar results", {"got_first_last_middle": got, "scalars": [w.value for w in ref]})
+
+
 def _task(task):
     if task[0] == "ops":
         return _ops_task(task[1])
@@ -410,6 +435,7 @@ def _task(task):
             _derived_own_unit(part, db)
         elif task[0] == "ints":
             _int_ndarrays(part, db)
+            _long_operands(part, db)
         else:
             _from_scalars(part, db)
     return part
